@@ -1,9 +1,12 @@
-(* C03 — proved so far (pure): the dependencies the scheduler derives from a yielded structure
-   (extract_futures) are exactly its leaves, and for structures built from lists and tuples only they
-   come in reverse written order, which on the LIFO task stack is what makes tasks that are first
-   scheduled together start in the order written.  Resume-once / termination rest on the
-   correspondence, the monitors and the watchdog. *)
-From Asynq Require Import Prog proofs.ProgProofs.
+(* C03 — a task resumes only when all it awaits is done; start order.
+   Statements only; proofs in proofs/ProgProofs.v and proofs/MachineC02.v.
+   Proved: (1) the dependencies derived from a yielded structure are exactly its futures, in reverse
+   written order for list/tuple structures (with the LIFO task stack: tasks first scheduled together
+   start in the order written); (2) on the machine, for tree programs, the scheduler resumes a task
+   only while it is uncomputed and every future it yielded is computed.
+   NOT proved (correspondence, monitors and the watchdog only): exactly-once per yield as a trace
+   property, never-started for never-awaited tasks, termination. *)
+From Asynq Require Import Machine Seq proofs.ProgProofs proofs.MachineC08 proofs.MachineC01 proofs.MachineC02.
 
 Theorem C03_dependencies_are_the_yielded_futures : forall (A : Type) (s : ystruct A) (a : A),
   In a (extract s) <-> In a (leaves s).
@@ -14,3 +17,12 @@ Theorem C03_list_tuple_dependencies_in_reverse_written_order : forall (A : Type)
   dict_free s = true -> extract s = rev (leaves s).
 Proof. exact (fun A s => extract_rev_leaves s). Qed.
 Print Assumptions C03_list_tuple_dependencies_in_reverse_written_order.
+
+Theorem C03_resumed_only_when_everything_awaited_is_done : forall P, pointwise P -> forall p, tree p -> forall n t,
+  let h := fst (create [] (FTask p) (st0 P)) in
+  let s1 := snd (create [] (FTask p) (st0 P)) in
+  no_unwind P n (start h s1) -> c_mode (run P n (start h s1)) = MResume t ->
+  exists tk, get t (c_st (run P n (start h s1))) = Some (mkFut None (KTask tk)) /\
+    forall x, In (RFut x) (leaves (tk_last tk)) -> computed x (c_st (run P n (start h s1))) = true.
+Proof. exact resume_guard_tree. Qed.
+Print Assumptions C03_resumed_only_when_everything_awaited_is_done.
